@@ -95,7 +95,7 @@ def _sweep():
                 if not ok:
                     bad.append((mode, f"{na},{nb}:{(a, b, c)}", f"normalised {out}"))
         # the same at very small and very large magnitudes: a non-zero normaliser, however tiny, normalises (float kinds only)
-        for scale in (1e-10, 1e-13, 1e12):
+        for scale in (1e-10, 1e-13, 1e12, 1e-310):      # 1e-310: a subnormal normaliser (its reciprocal overflows)
             for a, b, c in ((1, 3, -2), (-1, 2, 4), (5, 5, 1)):
                 for mk_name, mk in (('float', float), ('np.float64', np.float64)):
                     vals = {'a': mk(a * scale), 'b': mk(b * scale), 'c': mk(c * scale)}
